@@ -20,7 +20,7 @@ PROP = {
     "units": [
         dict({"pkg": "c18", "test": "TestWorkloads", "quick": 60, "thorough": 600, "shards": 16}, **_RACE),
         dict({"pkg": "c18", "test": "TestPolicyAccessorWorkload", "quick": 60, "thorough": 600, "shards": 16}, **_RACE),
-        dict({"pkg": "c18", "test": "TestManagerReloadWorkload", "quick": 25, "thorough": 300, "shards": 1}, **_RACE),
+        dict({"pkg": "c18", "test": "TestManagerReloadWorkload", "quick": 75, "thorough": 600, "shards": 1}, **_RACE),
     ],
     "technique": "generated concurrent workloads under the Go race detector (happens-before oracle, reports reduced to normalised signatures) plus serialisability checks of the verdicts",
     "level_text": ("generated concurrent workloads are executed against the real engine in a race-detector build; any unsynchronised access to engine state that the schedule exhibits is reported "
